@@ -7,8 +7,10 @@ def sample_edges(run, edges, k=3):
     out = []
     with open(edges) as f:
         for i, line in enumerate(f):
-            if i % 997 == 5:
+            if i % 997 < 40 and len(out) < k:
                 e = json.loads(json.loads(line)) if line.startswith('"') else json.loads(line)
+                if e.get("t") == "alt":
+                    continue
                 out.append({"hist": [c["op"] + " " + nscheck.P(c["p"]) for c in e["hist"]],
                             "call": e["call"]["op"] + " " + nscheck.P(e["call"]["p"]) + " " + nscheck.P(e["call"]["q"]),
                             "expected": e["res"]["err"], "expected_tree_entries": len(e["post"])})
